@@ -219,7 +219,10 @@ static void do_lot(vf_case *c) {
 	}
 	ep2_t r; ep2_new(r); vf_reseed();
 	if (!tiny) { VF_TRY(th, ep2_mul_sim_lot(r, ps, (const bn_t *)ks, n));
-		if (th) vf_fail(NULL, "ep2_mul_sim_lot(n=%d) raised %d", n, th); else expect_pt2("ep2_mul_sim_lot", r, &E, 1, NULL); }
+		if (th) vf_fail(NULL, "ep2_mul_sim_lot(n=%d) raised %d", n, th); else expect_pt2("ep2_mul_sim_lot", r, &E, 1, NULL);
+		/* the result aliased to one of the points */
+		if (n > 0) { int j = (int)((pat >> 1) % n); ep2_t keep; ep2_new(keep); ep2_copy(keep, ps[j]); vf_reseed(); VF_TRY(th, ep2_mul_sim_lot(ps[j], ps, (const bn_t *)ks, n)); char w[64]; snprintf(w, sizeof w, "ep2_mul_sim_lot(n=%d, result aliased to point %d)", n, j);
+			if (th) vf_fail(NULL, "%s raised %d", w, th); else expect_pt2(w, ps[j], &E, 1, NULL); ep2_copy(ps[j], keep); } }
 	VF_TRY(th, ep2_mul_sim_dig(r, ps, ds, n));
 	if (th) vf_fail(NULL, "ep2_mul_sim_dig(n=%d) raised %d", n, th); else expect_pt2("ep2_mul_sim_dig", r, &E2, 1, NULL);
 #if EP_ADD != BASIC
@@ -257,7 +260,11 @@ static void do_misc(vf_case *c) {
 			rpt2 T; rpt2_init(&T); rpt2_mul(&RC2, &T, &A, zt); rpt2_add(&RC2, &B, &B, &T); rpt2_mul(&RC2, &T, &P, RC.p); rpt2_add(&RC2, &B, &B, &T);
 			if (!B.inf) vf_fail(NULL, "ep2_frb: psi^2 - [t]psi + [p] does not annihilate the point");
 			/* powers: ep2_frb(., i) = psi applied i times */
-			ep2_copy(s, p); for (int i = 1; i <= 4; i++) { ep2_t t2; ep2_new(t2); VF_TRY(th, ep2_frb(s, s, 1)); VF_TRY(th, ep2_frb(t2, p, i)); rpt2 X, Y; rpt2_init(&X); rpt2_init(&Y); ep2_extract(&X, s); ep2_extract(&Y, t2); transitions++; if (th) vf_fail(NULL, "ep2_frb(i=%d) raised", i); else if (!rpt2_eq(&X, &Y)) vf_fail(NULL, "ep2_frb(P, %d) != psi^%d(P)", i, i); rpt2_clear(&X); rpt2_clear(&Y); }
+			ep2_copy(s, p); for (int i = 1; i <= 4; i++) { ep2_t t2; ep2_new(t2); VF_TRY(th, ep2_frb(s, s, 1)); VF_TRY(th, ep2_frb(t2, p, i)); rpt2 X, Y; rpt2_init(&X); rpt2_init(&Y); ep2_extract(&X, s); ep2_extract(&Y, t2); transitions++; if (th) vf_fail(NULL, "ep2_frb(i=%d) raised", i); else if (!rpt2_eq(&X, &Y)) vf_fail(NULL, "ep2_frb(P, %d) != psi^%d(P)", i, i);
+#if EP_ADD != BASIC
+				if (!P.inf) { ep2_inject(t2, &P, DREP, 5); VF_TRY(th, ep2_frb(t2, t2, i)); ep2_extract(&Y, t2); transitions++; if (th) vf_fail(NULL, "ep2_frb(un-normalised P, %d) raised", i); else if (!rpt2_eq(&X, &Y)) vf_fail(NULL, "ep2_frb(un-normalised P, %d) != psi^%d(P)", i, i); }
+#endif
+				rpt2_clear(&X); rpt2_clear(&Y); }
 			/* additivity psi(P + Q) = psi(P) + psi(Q) */
 			rpt2_add(&RC2, &T, &P, &Q); ep2_inject(s, &T, REP_AFF, 0); VF_TRY(th, ep2_frb(s, s, 1)); ep2_extract(&B, s);
 			VF_TRY(th, ep2_frb(s, q, 1)); ep2_extract(&T, s); rpt2_add(&RC2, &T, &T, &A); transitions++;
